@@ -263,6 +263,43 @@ def cmp_rule(ck, mod, label, only_over=False):
         raise Broken("anchor vanished: parameters of %s are %s" % (CT, names))
     where0 = relpath("%s:%d" % (f.file, f.line))
 
+    def _narrowed_len(v, depth=0):
+        """v is (a cast chain over) a truncation to fewer than 64 bits of a value computed from the plaintext length"""
+        I_ = f.inst(tuple(v)) if isinstance(v, (list, tuple)) and v and v[0] == "i" else None
+        if I_ is None or depth > 6:
+            return None
+        if I_.op == "trunc" and (I_.bits or 64) < 64:
+            seen_, st_ = set(), [tuple(I_.ops[0])]
+            while st_:
+                x_ = st_.pop()
+                if x_ in seen_:
+                    continue
+                seen_.add(x_)
+                if x_ == ("a", li):
+                    return I_
+                J_ = f.inst(x_) if x_ and x_[0] == "i" else None
+                if J_ is not None and J_.op in ("and", "or", "xor", "zext", "sext", "trunc", "sub", "add", "select", "freeze", "phi"):
+                    st_ += [tuple(o_) for o_ in J_.ops if isinstance(o_, (list, tuple)) and o_ and o_[0] in ("i", "a")]
+            return None
+        if I_.op in ("zext", "sext", "freeze", "and"):
+            for o_ in I_.ops:
+                if isinstance(o_, (list, tuple)) and o_ and o_[0] == "i":
+                    r_ = _narrowed_len(o_, depth + 1)
+                    if r_ is not None:
+                        return r_
+        return None
+    # a wipe delegated to another function: whatever else it does, a length handed on in fewer than 64 bits wipes len mod 2^k bytes only
+    for C_ in f.calls():
+        if C_.callee and not C_.is_dbg() and not C_.is_lifetime():
+            a_ = C_.call_args()
+            if a_ and ir.ptr_base(f, tuple(a_[0]))[0] == ("a", pi):
+                for x_ in a_[1:]:
+                    T_ = _narrowed_len(x_)
+                    if T_ is not None:
+                        ck.bad("R-C04-WIPE", CT, "wipe-length-narrowed[%s]" % label,
+                               "the plaintext buffer is handed to %s with a length truncated from 64 to %d bits: on a rejection only plaintext_len mod 2^%d bytes are wiped, the rest of the candidate plaintext survives"
+                               % (C_.callee, T_.bits, T_.bits), where=relpath(C_.where))
+
     def handler(ex, p, I, callee, args):
         raise Broken("%s calls %s: unrecognised idiom for a constant-time comparison" % (CT, callee))
     ex = irx.Exec(f, handler, unroll=True, arg_consts={si: TAG, li: 0})
